@@ -34,7 +34,7 @@ class Fn:
 
     def __init__(self, cname, tu, name, flt=None, select=None, kinds=('CXXMethodDecl', 'FunctionDecl', 'CXXConstructorDecl'),
                  self_struct=None, types=(), calls=(), members=(), hooks=(), stmt_hooks=(), aggregates=(),
-                 ret=None, lambda_index=None, extra_params=(), post=None, uf_float=True):
+                 ret=None, lambda_index=None, extra_params=(), post=None, uf_float=True, lambda_select=None):
         self.uf_float = uf_float
         self.cname = cname
         self.tu = tu
@@ -48,6 +48,7 @@ class Fn:
         self.aggregates = aggregates
         self.ret = ret
         self.lambda_index = lambda_index
+        self.lambda_select = lambda_select   # generic lambdas: picks the operator() specialisation (default: the first)
         self.extra_params = extra_params
         self.post = post  # optional text transformation of the emitted C (must be mechanical; recorded)
 
@@ -60,6 +61,8 @@ class Fn:
                 raise ExtractionError(f'{self.cname}: lambda #{self.lambda_index} not found ({len(lams)} lambdas)')
             lam = lams[self.lambda_index]
             ops = [m for m in astload.walk(lam) if m.get('kind') == 'CXXMethodDecl' and m.get('name') == 'operator()']
+            if self.lambda_select is not None:
+                ops = [m for m in ops if astload.has_body(m) and self.lambda_select(m)]
             if not ops:
                 raise ExtractionError(f'{self.cname}: lambda without operator()')
             d = ops[0]
